@@ -641,9 +641,13 @@ class UpdateCollection(Message):
         # attributes (ORIGIN, AS_PATH, and NEXT_HOP for the NLRI field) are treat-as-withdraw
         if announces:
             mandatory = [Attribute.CODE.ORIGIN, Attribute.CODE.AS_PATH]
+            malformed_nexthop = False
             if announced_view:
                 mandatory.append(Attribute.CODE.NEXT_HOP)
-            if any(code not in attributes for code in mandatory):
+                # RFC 7606 section 7.3: a NEXT_HOP attribute whose length is not 4 is malformed
+                classic_nexthop = attributes.get(Attribute.CODE.NEXT_HOP, None)
+                malformed_nexthop = classic_nexthop is not None and len(classic_nexthop._packed) != IPv4.BYTES
+            if malformed_nexthop or any(code not in attributes for code in mandatory):
                 withdraws.extend(routed.nlri for routed in announces)
                 announces = []
 
